@@ -171,3 +171,25 @@ Fixpoint trace_f (decl known : list nat) (atomic : bool) (s : st) (ops : list op
   | [] => []
   | o :: r => let '(s', ok) := step_f decl known atomic s o in (pval s', ok) :: trace_f decl known atomic s' r
   end.
+
+(* ---- the tail of the setter: `self.set_sp()` runs after the commit (it rebuilds the argument list of the compiled
+   evaluators).  Whether it leaves the committed values alone is a fact extracted from the source of set_sp
+   (Gen.ParamsGen.setsp_keeps_values: no statement of set_sp writes _paramValue / _parameters). *)
+Definition wipe (s : st) : st := {| pdic := pdic s; pval := repeat 0 (List.length (pval s)); has := has s |}.
+Definition after_setsp (keeps : bool) (s : st) : st := if keeps then s else wipe s.
+
+(* the setter followed by its tail, on every history *)
+Definition step_tail (decl : list nat) (alias keeps : bool) (s : st) (o : op) : st * bool :=
+  let r := step decl alias s o in (if snd r then after_setsp keeps (fst r) else fst r, snd r).
+
+Theorem tail_keeps : forall decl alias ops s,
+  fold_left (fun st o => fst (step_tail decl alias true st o)) ops s = fold_left (fun st o => fst (step decl alias st o)) ops s.
+Proof. intros decl alias. induction ops as [|o r IH]; cbn [fold_left]; intros s; [reflexivity|].
+  replace (fst (step_tail decl alias true s o)) with (fst (step decl alias s o)); [apply IH|].
+  unfold step_tail, after_setsp. cbn [fst snd]. destruct (snd (step decl alias s o)); reflexivity. Qed.
+
+(* a set_sp that resets the values violates the statement: the assignment itself is wiped *)
+Lemma tail_wipes_refuted :
+  bound [0%nat; 1%nat] (fst (step_tail [0%nat; 1%nat] false false (init [0%nat; 1%nat]) (SetList [7; 8]))) 0 = 0 /\
+  bound [0%nat; 1%nat] (fst (step_tail [0%nat; 1%nat] false true (init [0%nat; 1%nat]) (SetList [7; 8]))) 0 = 7.
+Proof. vm_compute. split; reflexivity. Qed.
